@@ -5,6 +5,7 @@ package flavors
 import (
 	"io"
 	"runtime"
+	"slices"
 	"sort"
 	"strings"
 
@@ -222,7 +223,13 @@ func (obj *Flavor) inheritFlavor(cf *Flavor) {
 		}
 		for _, ic := range im.Combinations {
 			if !m.HasMethodFromClass(ic.From.Name()) {
-				m.Combinations = append(m.Combinations, ic)
+				// vanilla-flavor is last in the precedence list so its
+				// combination stays last here as well.
+				if n := len(m.Combinations); 0 < n && m.Combinations[n-1].From == &vanilla {
+					m.Combinations = slices.Insert(m.Combinations, n-1, ic)
+				} else {
+					m.Combinations = append(m.Combinations, ic)
+				}
 			}
 		}
 	}
